@@ -591,6 +591,20 @@ func (ev *Eval) lookupName(n string) (EVal, bool) {
 var intT = types.Typ[types.Int]
 var boolT = types.Typ[types.Bool]
 
+func ghostVal(sort, term string) EVal {
+	switch sort {
+	case "Bool":
+		return bval(term)
+	case "Str":
+		return EVal{T: types.Typ[types.String], Terms: []string{term}}
+	case "Iface":
+		return EVal{T: types.NewInterfaceType(nil, nil), Terms: []string{term}}
+	case "Ptr":
+		return EVal{T: types.Typ[types.UnsafePointer], Terms: []string{term}}
+	}
+	return ival(term)
+}
+
 func bval(t string) EVal { return EVal{T: boolT, Terms: []string{t}} }
 func ival(t string) EVal { return EVal{T: intT, Terms: []string{t}, Untyped: true} }
 
@@ -627,6 +641,14 @@ func (ev *Eval) expr(e Expr) (EVal, error) {
 		if v, ok := ev.lookupName(x.Name); ok {
 			return v, nil
 		}
+		if strings.HasPrefix(x.Name, "$") {
+			if name, g, ok := ev.vc.ghostHeap(ev.heap(), x.Name); ok {
+				if g.Key != "" {
+					return EVal{}, fmt.Errorf("ghost %s is a map: index it", x.Name)
+				}
+				return ghostVal(g.Val, name), nil
+			}
+		}
 		// package-level variable or constant of the function's package
 		if v, ok := ev.global("", x.Name); ok {
 			return v, nil
@@ -646,6 +668,23 @@ func (ev *Eval) expr(e Expr) (EVal, error) {
 		}
 		return ev.selField(base, x.Name)
 	case *EIndex:
+		if id, ok := x.X.(*EIdent); ok && strings.HasPrefix(id.Name, "$") {
+			name, g, ok := ev.vc.ghostHeap(ev.heap(), id.Name)
+			if !ok || g.Key == "" {
+				return EVal{}, fmt.Errorf("%s is not a ghost map", id.Name)
+			}
+			k, err := ev.expr(x.I)
+			if err != nil {
+				return EVal{}, err
+			}
+			kt := ev.rv(k)
+			if len(kt) != 1 {
+				return EVal{}, fmt.Errorf("ghost map key must be scalar")
+			}
+			t := sel(name, kt[0])
+			ev.pats = append(ev.pats, t)
+			return ghostVal(g.Val, t), nil
+		}
 		base, err := ev.expr(x.X)
 		if err != nil {
 			return EVal{}, err
@@ -1119,6 +1158,24 @@ func (ev *Eval) callExpr(c *ECall) (EVal, error) {
 			return ival(ite("(<= "+p+" "+q+")", p, q)), nil
 		}
 		return ival(ite("(>= "+p+" "+q+")", p, q)), nil
+	case "obj":
+		// identity of the allocation a pointer / slice / map / interface payload refers to
+		v, err := arg(0)
+		if err != nil {
+			return EVal{}, err
+		}
+		t := ev.rv(v)
+		switch v.T.Underlying().(type) {
+		case *types.Pointer:
+			return ival("(p_obj " + t[0] + ")"), nil
+		case *types.Slice:
+			return ival("(s_obj " + t[0] + ")"), nil
+		case *types.Map, *types.Chan:
+			return ival(t[0]), nil
+		case *types.Interface:
+			return ival("(p_obj (i_pl " + t[0] + "))"), nil
+		}
+		return EVal{}, fmt.Errorf("obj() of %s", v.T)
 	case "payload":
 		// the pointer carried by an interface value
 		a, err := arg(0)
@@ -1260,10 +1317,23 @@ type modLoc struct {
 	sorts  []Sort
 	isMap  bool
 	mapRef string
+	ghost   string
+	allMaps bool
 }
 
 // modLoc interprets a modifies entry:  x.f   x.f[*]   x.*   *p   x.m[*] (map contents)
 func (ev *Eval) modLoc(e Expr) ([]modLoc, error) {
+	if id, ok := e.(*EIdent); ok {
+		if strings.HasPrefix(id.Name, "$") {
+			if _, ok := ev.vc.CS.Ghosts[id.Name]; !ok {
+				return nil, fmt.Errorf("unknown ghost %s", id.Name)
+			}
+			return []modLoc{{ghost: id.Name}}, nil
+		}
+		if id.Name == "maps" {
+			return []modLoc{{allMaps: true}}, nil
+		}
+	}
 	if s, ok := e.(*ESel); ok && s.Name == "$all" {
 		v, err := ev.expr(s.X)
 		if err != nil {
